@@ -66,7 +66,7 @@ CHECKS = {
             "Generated redis / cluster / sentinel Configs (url(s) x connection(s) in {none, some}; grammar and malformed URLs), connection descriptions, sentinel node descriptions and PoolConfig values (durations over the full secs / nanos range). Oracles: both set -> UrlAndConnectionSpecified; accept / reject agrees with the redis crate on the same parameters and the standalone manager shows exactly the ConnectionInfo the redis crate derives (default 127.0.0.1:6379 for neither); conversions in both directions preserve addr, db, username, password, protocol; serde_json and config::Environment round trips are the identity, omitted sections take the documented defaults; on four loopback listeners a cluster / sentinel pool contacts exactly the named ones.",
             "the redis crate is the reference for URL interpretation; tls_params excluded as documented; listener experiments use real loopback sockets", "property-based testing (proptest): differential against the redis crate, round-trip and listener oracles", "6 C19"),
     "C14": ("syncx", "exploration",
-            "A SyncWrapper around a value that records the thread and a logical stamp of its construction, of every closure and of its destruction is driven through generated histories of interact (returning / panicking / gated / gated-then-panicking closures), await, cancel, release-gate, drop-wrapper and poison-check steps on a current-thread or multi-thread tokio runtime with 1 / 2 / 4 blocking threads. Every harness future records the thread of each of its polls. Oracles: constructor, closures and destructor never run on a thread that polled async code or ran the driver; the destructor runs exactly once, after the last closure began and outside every closure's begin..end interval; a panicking closure yields InteractError::Panic and is_mutex_poisoned() from then on; a cancelled interact still lets its closure finish before destruction.",
+            "A SyncWrapper around a value that records the thread and a logical stamp of its construction, of every closure and of its destruction is driven through generated histories of interact (returning / panicking / gated / gated-then-panicking closures), await, cancel, release-gate, drop-wrapper (also by a panicking owner task, and from a thread of its own while a closure is still running: the drop has to return), and poison-check steps on a current-thread or multi-thread tokio runtime with 1 / 2 / 4 blocking threads. Every harness future records the thread of each of its polls. Oracles: constructor, closures and destructor never run on a thread that polled async code or ran the driver; the destructor runs exactly once, after the last closure began and outside every closure's begin..end interval; a panicking closure yields InteractError::Panic and is_mutex_poisoned() from then on; a cancelled interact still lets its closure finish before destruction.",
             "ordering between the async side and the blocking pool is forced by gates, not every timing of the two thread pools is explored; a shrunk case that depends on thread timing may not reproduce, the originally observed case is reported then", "stateful property-based testing (proptest) with thread-identity and logical-stamp oracles", "6 C14"),
     "C15": ("syncx", "exploration",
             "deadpool-sqlite (:memory:), deadpool-r2d2 (scripted ManageConnection with has_broken / is_valid per connection) and deadpool-diesel (SqliteConnection :memory:, Fast / Verified / CustomQuery / CustomFunction) are driven through histories of get, return, interact (ok / panic / cancelled gated closure that panics or quietly breaks the connection when released: before the return, between return and next get, or during the next get's recycle) and mark-broken (r2d2 flags, dangling diesel transaction, failing custom function), on pools with or without harmless hooks. Each connection carries an identity the pool cannot change (PRAGMA user_version or a serial number); no hand-out may show an identity on which a closure panicked or that was reported broken / invalid, the get meeting such a connection must succeed, and the end probe takes max_size healthy connections.",
@@ -75,7 +75,7 @@ CHECKS = {
             "Histories of get / try_get / timeout_get / add / try_add / remove / try_remove / take / return / cancel on pools built by new, from_config and From<Vec>, with thread-level pauses between the statements of Object::drop, Object::take, _add, try_get and close. Identity-tagged objects: after every step and at every park each id is in exactly one place (queue, one caller, handed back), none is destroyed by an open pool, queued + checked out <= max_size; sequential model for every call made at a quiescent point (try_add Timeout iff full with the same object back, add pending iff full, try_get Timeout iff empty); at rest status() and both semaphores equal ground truth.",
             "trusted: the harness's ownership ledger; schedule points between statements only; max_size <= 4, <= 6 pending futures", "stateful property-based testing (proptest) with generated schedules; conservation ledger and sequential reference model", "6 C05"),
     "C12": ("usim", "exploration",
-            "Same interpreter with close() anywhere, weighted to getters parked between permit and pop and to _add / Object::drop parked between their steps while close runs. Every call is wrapped in catch_unwind; after close() returned, waiters must have been woken and fail with Closed, adders get the same object back, later calls fail with Closed, the queue is empty and size equals the objects still checked out, objects returned later are destroyed.",
+            "Same interpreter with close() anywhere (plus a stage of unmanaged histories with a runtime and finite timeouts on the virtual clock, judged for panics and for Closed after close()), weighted to getters parked between permit and pop and to _add / Object::drop parked between their steps while close runs. Every call is wrapped in catch_unwind; after close() returned, waiters must have been woken and fail with Closed, adders get the same object back, later calls fail with Closed, the queue is empty and size equals the objects still checked out, objects returned later are destroyed.",
             "a call that is mis-configured (non-zero timeout without runtime) may report NoRuntimeSpecified on a closed pool; same bounds as C05", "stateful property-based testing (proptest) with generated schedules; panic capture and post-close invariants", "6 C12"),
 }
 
